@@ -133,37 +133,68 @@ func richDocForm(version string, mk func(loc string) string, sig bool, form stri
 func fixedMarker(loc string) string { return "marker-" + loc }
 
 // canon renders everything reachable from the catalog and the info dict as a canonical text: strings as decoded
-// bytes, streams by the hash of their decoded content, references by order of first visit. Entries that pdfcpu
-// maintains itself when writing (Producer, ModDate, trailer ID, encryption, filters and lengths) are left out.
+// bytes, streams by the hash of their decoded content, indirect references replaced by the (expanded) content of
+// their target, so that neither object numbers nor the sharing of equal objects matter; a reference to an object
+// that is being expanded is written as the distance up the expansion path. /Parent links are structural and left
+// out, as are entries that pdfcpu maintains itself when writing (Producer, dates, trailer ID, encryption, filters
+// and lengths).
 type canon struct {
-	ctx  *model.Context
-	ids  map[int]int
-	b    strings.Builder
-	errs []string
+	ctx   *model.Context
+	stack []int
+	memo  map[int]string
+	esc   int // smallest stack index referenced by a cycle marker inside the subtree being expanded
+	b     strings.Builder
+	errs  []string
 }
 
 var canonSkip = map[string]bool{"Length": true, "Filter": true, "DecodeParms": true}
+
+const noEsc = 1 << 30
+
+func (c *canon) ref(n int, v types.IndirectRef) {
+	for i, m := range c.stack {
+		if m == n {
+			if i < c.esc {
+				c.esc = i
+			}
+			fmt.Fprintf(&c.b, "up%d", len(c.stack)-i)
+			return
+		}
+	}
+	if t, ok := c.memo[n]; ok {
+		c.b.WriteString(t)
+		return
+	}
+	if c.b.Len() > 64<<20 {
+		h.Die("canonical text too large")
+	}
+	start, idx, saved := c.b.Len(), len(c.stack), c.esc
+	c.stack = append(c.stack, n)
+	c.esc = noEsc
+	c.b.WriteString("{")
+	t, err := c.ctx.Dereference(v)
+	if err != nil {
+		c.errs = append(c.errs, err.Error())
+		c.b.WriteString("<error>")
+	} else {
+		c.obj(t, "")
+	}
+	c.b.WriteString("}")
+	c.stack = c.stack[:idx]
+	if c.esc >= idx {
+		c.memo[n] = c.b.String()[start:]
+	}
+	if saved < c.esc {
+		c.esc = saved
+	}
+}
 
 func (c *canon) obj(o types.Object, top string) {
 	switch v := o.(type) {
 	case nil:
 		c.b.WriteString("null")
 	case types.IndirectRef:
-		n := v.ObjectNumber.Value()
-		if id, ok := c.ids[n]; ok {
-			fmt.Fprintf(&c.b, "ref#%d", id)
-			return
-		}
-		id := len(c.ids) + 1
-		c.ids[n] = id
-		fmt.Fprintf(&c.b, "obj#%d=", id)
-		t, err := c.ctx.Dereference(v)
-		if err != nil {
-			c.errs = append(c.errs, err.Error())
-			c.b.WriteString("<error>")
-			return
-		}
-		c.obj(t, "")
+		c.ref(v.ObjectNumber.Value(), v)
 	case types.Dict:
 		c.dict(v, top)
 	case types.StreamDict:
@@ -212,7 +243,7 @@ func (c *canon) obj(o types.Object, top string) {
 func (c *canon) dict(d types.Dict, kind string) {
 	keys := make([]string, 0, len(d))
 	for k := range d {
-		if kind == "stream" && canonSkip[k] {
+		if kind == "stream" && canonSkip[k] || k == "Parent" {
 			continue
 		}
 		if kind == "info" && (k == "Producer" || k == "ModDate" || k == "CreationDate") {
@@ -232,7 +263,7 @@ func (c *canon) dict(d types.Dict, kind string) {
 
 // canonOf returns the canonical text of a read context and its digest.
 func canonOf(ctx *model.Context) (string, []string) {
-	c := &canon{ctx: ctx, ids: map[int]int{}}
+	c := &canon{ctx: ctx, memo: map[int]string{}, esc: noEsc}
 	if ctx.Root == nil {
 		h.Die("context without catalog")
 	}
@@ -240,12 +271,8 @@ func canonOf(ctx *model.Context) (string, []string) {
 	c.obj(*ctx.Root, "")
 	c.b.WriteString("\nINFO ")
 	if ctx.Info != nil {
-		n := ctx.Info.ObjectNumber.Value()
-		if _, seen := c.ids[n]; !seen {
-			c.ids[n] = len(c.ids) + 1
-			if d, err := ctx.DereferenceDict(*ctx.Info); err == nil && d != nil {
-				c.dict(d, "info")
-			}
+		if d, err := ctx.DereferenceDict(*ctx.Info); err == nil && d != nil {
+			c.dict(d, "info")
 		}
 	}
 	return c.b.String(), c.errs
